@@ -708,20 +708,32 @@ func constBytes(v ssa.Value) string {
 	if !ok || gl.Pkg == nil {
 		return ""
 	}
-	val, stores := "", 0
+	init, ok := globalSingleInit(gl)
+	if !ok {
+		return ""
+	}
+	if cv, isCv := init.(*ssa.Convert); isCv {
+		if k, isK := ssax.ConstString(cv.X); isK {
+			return k
+		}
+	}
+	return ""
+}
+
+// globalSingleInit returns the one value ever stored into package variable gl, provided nothing
+// else in its package can change it: no second store, no address taken (other than to load it), no
+// store to its elements through a load.
+func globalSingleInit(gl *ssa.Global) (ssa.Value, bool) {
+	var val ssa.Value
+	stores := 0
 	var visit func(f *ssa.Function)
 	visit = func(f *ssa.Function) {
 		for _, b := range f.Blocks {
 			for _, i := range b.Instrs {
 				if st, isSt := i.(*ssa.Store); isSt && st.Addr == ssa.Value(gl) {
 					stores++
-					if cv, isCv := st.Val.(*ssa.Convert); isCv {
-						if k, isK := ssax.ConstString(cv.X); isK {
-							val = k
-						}
-					}
+					val = st.Val
 				}
-				// the address escaping (&newline) would allow writes we do not see
 				for _, op := range i.Operands(nil) {
 					if *op == ssa.Value(gl) {
 						switch x := i.(type) {
@@ -730,7 +742,6 @@ func constBytes(v ssa.Value) string {
 								stores += 2
 							}
 						case *ssa.UnOp:
-							// a load: its elements must not be stored to
 							if rs := x.Referrers(); rs != nil {
 								for _, r := range *rs {
 									if ia, isIA := r.(*ssa.IndexAddr); isIA {
@@ -770,10 +781,10 @@ func constBytes(v ssa.Value) string {
 			}
 		}
 	}
-	if stores != 1 {
-		return ""
+	if stores != 1 || val == nil {
+		return nil, false
 	}
-	return val
+	return val, true
 }
 
 // hasPrefixTest recognises a boolean that is true exactly when x starts with s.
